@@ -7,6 +7,7 @@ import (
 	"image"
 	"image/color"
 	"image/draw"
+	"runtime"
 	"testing"
 
 	"github.com/mandykoh/prism/linear"
@@ -251,6 +252,7 @@ func TestC10(t *testing.T) {
 		swept := false
 		for _, cfg := range [][3]string{{"RGBA64", "RGBA64", ""}, {"NRGBA", "RGBA64", ""}, {"RGBA64", "RGBA", ""}, {"RGBA64", "NRGBA", ""}, {"RGBA64", "RGBA64", "inplace"}, {"RGBA", "RGBA", "inplace"}} {
 			for h := 1; h <= ev.Pick(70, 300) && !swept; h++ {
+				runtime.GOMAXPROCS([]int{origProcs, 3, 1, 5, origProcs, 12}[h%6])
 				for p := 1; p <= ev.Pick(34, 100); p++ {
 					s := img.Spec{Type: cfg[0], Rect: [4]int{0, 0, 2, h}, Parent: [4]int{0, 0, 2, h}, Fill: []string{"ramp", "orbit-h", "orbit-v"}[(h+p)%3], Seed: 5}
 					d := img.Spec{Type: cfg[1], Rect: [4]int{1, 1, 3, 1 + h}, Parent: [4]int{1, 1, 3, 1 + h}, Fill: "ff", Seed: 6}
@@ -269,6 +271,7 @@ func TestC10(t *testing.T) {
 		}
 		ev.Eval(np)
 		ev.NTAdd(np)
+		runtime.GOMAXPROCS(origProcs)
 		ev.Class("height-parallelism-pairs", np)
 	}
 	ev.RapidChecks(ev.Pick(5000, 200000))
@@ -317,3 +320,5 @@ func parChoices(rows int) []int {
 	}
 	return c
 }
+
+var origProcs = runtime.GOMAXPROCS(0)
